@@ -99,7 +99,7 @@ func VerifC19_Evm() {
 		tag := string(rune('A' + i))
 		k1.SetCode(ctx1, crypto.Keccak256(a.code), a.code)
 		for s, key := range c19Keys {
-			if v := zz.Choose("slot."+tag+"."+string(rune('0'+s)), len(c19Vals)+1); v > 0 {
+			if v := zz.Choose("slot."+tag+"."+string(rune('0'+s)), zz.ParamInt("vals", len(c19Vals))+1); v > 0 {
 				k1.SetState(ctx1, a.addr, key, c19Vals[v-1].Bytes())
 			}
 		}
